@@ -200,6 +200,21 @@ def f_hold(nesting=2, fail=0, outside=1, v=1, sub=0, durations=(1.0, 1.0, 1.0)):
     return {"plan.py": script(prog, v=v)}
 
 
+def f_holdlate(lead=1):
+    """The plan defines X and S1, later (after `lead` idle actions) holds dispatch for S2. With all
+    job slots busy S1 is still pending when the hold arrives."""
+    return {
+        "unused.txt": "u\n",
+        "x.py": script([["write", "x.out", []]]),
+        "plan.py": script([["static", "unused.txt", "x.py"],
+                           ["run", "./x.py", {"out": ["x.out"]}],
+                           tr("S1", [], ["s1.txt"]),
+                           *([["nop"]] * lead),
+                           ["hold", [tr("S2", [], ["s2.txt"]), ["nop"]]],
+                           ["nop"]]),
+    }
+
+
 def f_resmix(demands, durations=None):
     prog = []
     for i, dem in enumerate(demands):
@@ -400,6 +415,26 @@ def f_optional(u=1, o2_need="OPTIONAL", src="x", usub=0):
     return files
 
 
+def f_dynout(target="dyn1", consumer="none", sub=0):
+    """gen.py announces its output at run time (amend out=...); a second planning script, which
+    runs after gen.py, may define an optional step that uses a (former) product of gen.py as
+    input. Changing `target` orphans the old product; `consumer` keeps it alive as a supplied
+    input of a new step."""
+    d = "sub/" if sub else ""
+    gen = [["amend", {"out": [f"{d}{target}.txt"]}], ["write", f"{d}{target}.txt", []],
+           ["write", "gen.log", [], target]]
+    p2 = []
+    if consumer != "none":
+        p2.append(tr("K", [f"{d}{consumer}.txt"], ["copy.txt"], need="OPTIONAL"))
+    return {
+        "gen.py": script(gen),
+        "plan2.py": script(p2),
+        "plan.py": script([["static", "gen.py", "plan2.py"],
+                           ["run", "./gen.py", {"out": ["gen.log"]}],
+                           ["plan", "./plan2.py", {"inp": ["gen.log"]}]]),
+    }
+
+
 DOMAINS = {
     "f_chain": {"a_tag": (1, 2), "b": (1, 0), "b_need": ("DEFAULT", "OPTIONAL"),
                 "b_out": ("b.txt", "b2.txt"), "c": (1, 0), "src": ("x", "y"), "src_exists": (1, 0)},
@@ -414,6 +449,7 @@ DOMAINS = {
     "f_redefine": {"inp": (("src.txt",), (), ("src.txt", "src2.txt")), "out": (("r.txt",), ("r.txt", "r2.txt"))},
     "f_optional": {"u": (1, 0), "o2_need": ("OPTIONAL", "DEFAULT"), "src": ("x", "y")},
     "f_selfprod": {"sub": (1, 0)},
+    "f_dynout": {"target": ("dyn1", "dyn2"), "consumer": ("none", "dyn1", "dyn2"), "sub": (0, 1)},
     "f_hold": {"nesting": (2, 1), "v": (1, 2)},
 }
 ENV_DOMAIN = {"f_env": {"VERIF_X": (None, "1", "2")}}
